@@ -427,7 +427,7 @@ func parseValues(txt string, p *Printer, want []*Term) (map[string]uint64, map[i
 		if next() != ")" {
 			return nil, nil
 		}
-		name = strings.Trim(name, "|")
+		name = strings.TrimPrefix(strings.Trim(name, "|"), "v:")
 		if _, ok := p.decl[name]; ok {
 			model[name] = val
 		} else if strings.HasPrefix(name, "n") {
